@@ -78,9 +78,10 @@ Fixpoint dfs_loop (fuel : nat) (g : graph) (stack disc fin out : list nat) : opt
   end.
 
 Definition edge_count (g : graph) : nat :=
-  fold_right (fun gn acc => (length (snd gn) + acc)%nat) 0%nat g.
+  fold_right (fun x acc => (length (neighbors g x) + acc)%nat) 0%nat (seq 0 (length g)).
 
-(* iterations <= discoveries + pops + 1 <= |V| + (|E| + 1) + 1 *)
+(* iterations <= discoveries + pops + 1 <= |V| + (|E| + 1) + 1; sufficiency is proved in
+   Proofs/C10Total.v (dfs_loop_total), so `None` from dfs_loop never means "out of fuel" *)
 Definition dfs_fuel (g : graph) : nat := (length g + edge_count g + 2)%nat.
 
 Definition dfs_post_order (g : graph) (root : nat) : option (list nat) :=
